@@ -856,14 +856,34 @@ func Norm(a Matrix, norm float64) float64 {
 		}
 		return max
 	case 2:
-		var sum float64
+		// Scaled sum of squares, as in lapack64.Lange for the built-in
+		// types, so that the squares neither overflow nor underflow.
+		var scale float64
+		ssq := 1.0
+		var inf bool
 		for i := 0; i < r; i++ {
 			for j := 0; j < c; j++ {
-				v := a.At(i, j)
-				sum += v * v
+				v := math.Abs(a.At(i, j))
+				switch {
+				case v == 0:
+				case math.IsNaN(v):
+					return math.NaN()
+				case math.IsInf(v, 1):
+					inf = true
+				case scale < v:
+					s := scale / v
+					ssq = 1 + ssq*s*s
+					scale = v
+				default:
+					s := v / scale
+					ssq += s * s
+				}
 			}
 		}
-		return math.Sqrt(sum)
+		if inf {
+			return math.Inf(1)
+		}
+		return scale * math.Sqrt(ssq)
 	case math.Inf(1):
 		var max float64
 		for i := 0; i < r; i++ {
